@@ -2859,17 +2859,22 @@ pub mod verif {
 
         /// What the scheduler currently asks for, per active queue: (queue, sn workers, mn allocations, mn workers per allocation)
         pub fn demand(&self) -> Vec<(QueueId, u32, u32, u32)> {
+            self.demand_of(false)
+        }
+
+        /// `all_active`: ask for every queue in state Active, also those that the next tick would pause
+        pub fn demand_of(&self, all_active: bool) -> Vec<(QueueId, u32, u32, u32)> {
             // the queues that are still active after the `try_pause_queue` pass of perform_submits
             let queues: Vec<_> = self
                 .state
                 .queues()
                 .filter(|(_, q)| {
                     q.state().is_active()
-                        && !matches!(
+                        && (all_active || !matches!(
                             q.limiter().submission_status(),
                             RateLimiterStatus::TooManyFailedSubmissions
                                 | RateLimiterStatus::TooManyFailedAllocations
-                        )
+                        ))
                 })
                 .collect();
             if queues.is_empty() || queues.iter().all(|(_, q)| !q.has_space_for_submit()) {
